@@ -1243,3 +1243,175 @@ Proof.
   match goal with |- bind ?x ?k = _ => replace x with (@Ok (istate * list signal) (st', mux_result es env m mx mid (gsize_of es env m mx (is_enums st) (index_from 0 S')) S')) end.
   cbn [bind]. reflexivity.
 Qed.
+
+(* ---------------- projection of a message with a multiplexer ---------------- *)
+From Acme.C11 Require RoundTripAttr.
+
+Section MuxProj.
+  Variables (es : list enum_def) (env : ienv) (names : list string) (m : message) (mx : signal) (mid gs : Z) (S' : list signal).
+  Hypothesis Hmm : mmessage es names m.
+  Hypothesis Hmx : In mx (m_signals m).
+  Hypothesis Hmxm : is_muxb mx = true.
+  Hypothesis Henv : forall s, In s (m_signals m) -> is_muxb s = false ->
+     lookup key_eqb (u32 (m_canid m), clear (s_name s)) (ie_sig_enums env) = None /\
+     desc_of key_eqb (u32 (m_canid m), clear (s_name s)) (ie_sig_desc env) = s_desc s.
+  Hypothesis HpS : Permutation (m_signals m) S'.
+  Hypothesis Hmid : In (mid, mx) (index_from 0 S').
+  Let sigs := m_signals m.
+  Let X := index_from 0 S'.
+  Let R := mux_result es env m mx mid gs S'.
+  Let Hms : msigs_ok es sigs. Proof. destruct Hmm as [_ [_ [_ [_ [_ [_ [_ [H _]]]]]]]]. exact H. Qed.
+
+  Definition Fimg (p : Z * signal) : signal :=
+    if is_muxb (snd p) then mx_img mx (fst p) gs
+    else if is_topb (snd p) then timg es env m mx p else kimg es env m mx mid p.
+  Definition Y : list (Z * signal) := filter plainp X ++ [(mid, mx)] ++ filter childp X.
+
+  Lemma HndS : NoDup S'.
+  Proof. destruct Hms as [Hids _]. eapply Permutation_NoDup; [exact HpS|]. eapply NoDup_map_inv. exact Hids. Qed.
+
+  Lemma X_in : forall p, In p X -> In (snd p) sigs.
+  Proof.
+    intros [i x] Hp. cbn [snd]. apply index_from_range in Hp. destruct Hp as [_ Hx].
+    eapply Permutation_in; [apply Permutation_sym; exact HpS|exact Hx].
+  Qed.
+
+  Lemma mux_filter : filter (fun p : Z * signal => is_muxb (snd p)) X = [(mid, mx)].
+  Proof.
+    pose proof (index_from_snd_nodup S' 0 HndS) as Hn2. fold X in Hn2.
+    pose proof Hmid as Hm2. fold X in Hm2. apply in_split in Hm2. destruct Hm2 as [A [B HAB]].
+    assert (HXi := X_in). rewrite HAB in *. rewrite filter_app. cbn [filter snd]. rewrite Hmxm.
+    rewrite map_app in Hn2. cbn [map snd] in Hn2. destruct Hms as [_ [_ [_ [Hu _]]]].
+    assert (HA : filter (fun p : Z * signal => is_muxb (snd p)) A = []).
+    { apply Proofs.filter_nil. intros q Hq. destruct (is_muxb (snd q)) eqn:E; [|reflexivity]. exfalso.
+      assert (snd q = mx) by (apply Hu; try assumption; apply HXi; apply in_or_app; left; assumption).
+      apply NoDup_remove_2 in Hn2. apply Hn2. apply in_or_app. left. rewrite <- H. apply in_map. assumption. }
+    assert (HB : filter (fun p : Z * signal => is_muxb (snd p)) B = []).
+    { apply Proofs.filter_nil. intros q Hq. destruct (is_muxb (snd q)) eqn:E; [|reflexivity]. exfalso.
+      assert (snd q = mx) by (apply Hu; try assumption; apply HXi; apply in_or_app; right; right; assumption).
+      apply NoDup_remove_2 in Hn2. apply Hn2. apply in_or_app. right. rewrite <- H. apply in_map. assumption. }
+    rewrite HA, HB. reflexivity.
+  Qed.
+
+  Lemma mx_is_top : is_topb mx = true.
+  Proof. exact (proj2 (mx_top es m mx names Hmm Hmx Hmxm)). Qed.
+
+  Lemma XY_perm : Permutation X Y.
+  Proof.
+    unfold Y. rewrite <- mux_filter.
+    assert (E1 : Permutation X (filter plainp X ++ filter (fun p => negb (plainp p)) X)).
+    { eapply Permutation_trans; [|apply Permutation_sym; apply filter_partition_perm; intros x _; destruct (plainp x); reflexivity].
+      rewrite filter_all; [apply Permutation_refl|]. intros x _. destruct (plainp x); reflexivity. }
+    eapply Permutation_trans; [exact E1|]. apply Permutation_app_head.
+    eapply Permutation_trans; [|apply Permutation_sym; apply filter_partition_perm].
+    - erewrite filter_ext_in; [apply Permutation_refl|]. intros p Hp. unfold plainp, childp. cbn beta.
+      destruct (is_muxb (snd p)) eqn:Em, (is_topb (snd p)) eqn:Et; reflexivity.
+    - intros p Hp. unfold childp. destruct (is_muxb (snd p)) eqn:Em, (is_topb (snd p)) eqn:Et; try reflexivity.
+      exfalso. destruct Hms as [_ [_ [_ [Hu _]]]]. assert (snd p = mx) by (apply Hu; try assumption; apply X_in; assumption).
+      rewrite H in Et. rewrite mx_is_top in Et. discriminate.
+  Qed.
+
+  Lemma R_map : R = map Fimg Y.
+  Proof.
+    unfold R, mux_result, Y. fold X. rewrite !map_app. cbn [map]. f_equal; [|f_equal].
+    - apply map_ext_in. intros p Hp. apply filter_In in Hp. destruct Hp as [_ Hp]. unfold plainp in Hp. apply andb_true_iff in Hp. destruct Hp as [P1 P2].
+      apply negb_true_iff in P2. unfold Fimg. rewrite P2, P1. reflexivity.
+    - unfold Fimg. cbn [fst snd]. rewrite Hmxm. reflexivity.
+    - apply map_ext_in. intros p Hp. apply filter_In in Hp. destruct Hp as [Hpx Hp]. unfold childp in Hp. apply negb_true_iff in Hp.
+      unfold Fimg. rewrite Hp. destruct (is_muxb (snd p)) eqn:Em; [|reflexivity].
+      exfalso. destruct Hms as [_ [_ [_ [Hu _]]]]. assert (snd p = mx) by (apply Hu; try assumption; apply X_in; assumption).
+      rewrite H in Hp. rewrite mx_is_top in Hp. discriminate.
+  Qed.
+
+  Lemma Fimg_id : forall p, s_id (Fimg p) = fst p.
+  Proof. intros p. unfold Fimg. destruct (is_muxb (snd p)); [reflexivity|]. destruct (is_topb (snd p)); reflexivity. Qed.
+
+  Lemma R_ids : NoDup (map s_id R).
+  Proof.
+    rewrite R_map, map_map. rewrite (map_ext _ fst) by apply Fimg_id.
+    eapply Permutation_NoDup; [apply Permutation_map; exact XY_perm|]. apply ProofsIds.index_from_fst_nodup.
+  Qed.
+
+  Lemma mx_in_R : In (mx_img mx mid gs) R.
+  Proof. unfold R, mux_result. apply in_or_app. right. left. reflexivity. Qed.
+
+  Hypothesis Henvx : desc_of key_eqb (u32 (m_canid m), clear (s_name mx)) (ie_sig_desc env) = s_desc mx.
+  Hypothesis Hgs : 1 <= gs.
+  Variable es' : list enum_def.
+
+  Lemma find_mx : find_sig R mid = Some (mx_img mx mid gs).
+  Proof. apply (ProofsIds.find_sig_unique R (mx_img mx mid gs) R_ids mx_in_R). Qed.
+
+  Lemma R_len : exists k, length R = S k.
+  Proof. pose proof mx_in_R as H. destruct R as [|x r]; [destruct H|]. exists (length r). reflexivity. Qed.
+
+  Lemma sigs_len : exists k, length sigs = S k.
+  Proof. pose proof Hmx as H. fold sigs in H. destruct sigs as [|x r]; [destruct H|]. exists (length r). reflexivity. Qed.
+
+  Lemma selw_img : sel_width (mx_img mx mid gs) = sel_width mx.
+  Proof.
+    destruct (selw_facts es env m mx names Hmm Hmx Hmxm Henv) as [Hs _].
+    unfold sel_width at 1. cbn [s_gcount mx_img]. apply ProofsIds.calc_size_sel. lia.
+  Qed.
+
+  Lemma proj_pt : forall p, In p X -> proj_signal es' R (Fimg p) = proj_signal es sigs (snd p).
+  Proof.
+    intros p Hp. pose proof (X_in p Hp) as Hs. destruct Hms as [Hids _].
+    destruct (is_muxb (snd p)) eqn:Em.
+    - (* the multiplexer *)
+      assert (Hpm : snd p = mx) by (destruct Hms as [_ [_ [_ [Hu _]]]]; apply Hu; assumption).
+      assert (Hpi : fst p = mid).
+      { pose proof (index_from_snd_nodup S' 0 HndS) as Hn2. fold X in Hn2.
+        assert (p = (mid, mx)) by (apply (NoDup_map_inj snd X); [assumption|assumption|exact Hmid|rewrite Hpm; reflexivity]). subst p. reflexivity. }
+      unfold Fimg. rewrite Em, Hpm, Hpi.
+      destruct (mx_top es m mx names Hmm Hmx Hmxm) as [[Hp0 [Hg0 [Hv0 [Ht0 [Ha0 _]]]]] _].
+      unfold proj_signal, membership. rewrite !abs_start_top by (try assumption; reflexivity).
+      pose proof Hmxm as Hmk. unfold is_muxb in Hmk. destruct (s_kind mx) eqn:Ek; try discriminate.
+      cbn [s_kind s_name s_rel s_parent s_groups s_desc s_startval s_sendtype s_attrs mx_img]. rewrite selw_img, ?Ek, Hp0, Hv0, Ht0, Ha0, clear_spaces_idem. reflexivity.
+    - assert (Hne : snd p <> mx) by (intros Heq; rewrite Heq in Em; congruence).
+      destruct (other_sig es m mx names Hmm Hmx Hmxm (snd p) Hs Hne) as [_ [Hk Hc]].
+      destruct (Henv (snd p) Hs Em) as [_ Hd].
+      unfold Fimg. rewrite Em.
+      destruct Hc as [[Ht [Hp0 [Hg0 [Hv0 [Ht0 [Ha0 [Hr0 Hsz]]]]]]]|[Ht Hok]]; rewrite Ht.
+      + (* a plain top-level signal *)
+        rewrite Hk in Hsz. unfold proj_signal, membership, sig_size, timg, std_imp, img. rewrite Em, Ht.
+        rewrite !abs_start_top by (try assumption; reflexivity).
+        unfold dsig_e. rewrite Hk.
+        cbn [s_kind s_name s_rel s_parent s_groups s_size s_signed s_scale s_offset s_min s_max s_unit s_desc s_startval s_sendtype s_attrs place
+             dsig_of ds_name ds_size ds_signed ds_factor ds_offset ds_min ds_max ds_unit].
+        rewrite ?Hk, ?Hp0, ?Hv0, ?Ht0, ?Ha0, ?clear_spaces_idem, ?u32_id by lia.
+        rewrite Hd. reflexivity.
+      + (* a multiplexed signal *)
+        destruct Hok as [_ [Hpar [[g [Hg Hgr]] [Hdesc [Hv0 [Ht0 [Ha0 [Hsz [Hr0 _]]]]]]]]].
+        assert (Hgrp : grp (snd p) = g) by (unfold grp; rewrite Hg; reflexivity).
+        destruct R_len as [k HRl]. destruct sigs_len as [k2 HSl].
+        unfold proj_signal. rewrite HRl, HSl. cbn [abs_start].
+        unfold kimg at 1 2 3 4 5 6 7. cbn [s_parent place]. rewrite find_mx. rewrite Hpar.
+        rewrite (ProofsIds.find_sig_unique sigs mx Hids Hmx).
+        rewrite !abs_start_top by (try reflexivity; apply (proj1 (mx_top es m mx names Hmm Hmx Hmxm))).
+        unfold membership. cbn [s_parent s_groups kimg place]. rewrite Hpar, Hg, Hgrp.
+        unfold sig_size, kimg, std_imp, img. rewrite Em, Ht.
+        cbn [s_kind s_name s_rel s_parent s_groups s_size s_signed s_scale s_offset s_min s_max s_unit s_desc s_startval s_sendtype s_attrs place
+             child_dsig ds_name ds_size ds_signed ds_factor ds_offset ds_min ds_max ds_unit mx_img].
+        rewrite ?selw_img, ?Hk, ?Hv0, ?Ht0, ?Ha0, ?clear_spaces_idem, ?u32_id by lia.
+        rewrite ?find_mx. cbn [s_name mx_img]. rewrite ?clear_spaces_idem.
+        rewrite Hd. reflexivity.
+  Qed.
+
+  Lemma proj_sigs_mux :
+    sort_by (fun a b => str_ltb (ps_name a) (ps_name b)) (map (proj_signal es' R) R)
+    = sort_by (fun a b => str_ltb (ps_name a) (ps_name b)) (map (proj_signal es sigs) sigs).
+  Proof.
+    assert (HR1 : map (proj_signal es' R) R = map (fun p => proj_signal es' R (Fimg p)) Y).
+    { transitivity (map (proj_signal es' R) (map Fimg Y)); [f_equal; exact R_map|apply map_map]. }
+    assert (HR2 : Permutation (map (proj_signal es' R) R) (map (proj_signal es sigs) sigs)).
+    { rewrite HR1.
+      eapply Permutation_trans; [apply Permutation_map; apply Permutation_sym; exact XY_perm|].
+      rewrite (map_ext_in _ (fun p => proj_signal es sigs (snd p))) by (intros p Hp; apply proj_pt; assumption).
+      rewrite <- (map_map snd (proj_signal es sigs)). unfold X. rewrite Proofs.index_from_snd.
+      apply Permutation_map. apply Permutation_sym. exact HpS. }
+    apply (RoundTripAttr.keyed_sort_perm_eq ps_name); [exact HR2|].
+    eapply Permutation_NoDup; [apply Permutation_map; apply Permutation_sym; exact HR2|].
+    rewrite map_map. destruct Hms as [_ [Hn _]]. exact Hn.
+  Qed.
+End MuxProj.
